@@ -45,6 +45,11 @@ EDITS = [
   # a value holding a place-holder followed by a range marker (':' and '=' inside VALUE)
   (["--add-item", "Pair:C-C=as.constant ${Tabulation:cutoff} >=2.0 as.zero"], lambda t: t.replace("B-B : f 2.0", "B-B : f 2.0\nC-C : as.constant ${Tabulation:cutoff} >=2.0 as.zero")),
   (["--override-item", "Pair:B-B=as.constant ${Tabulation:cutoff} >=2.0 as.zero"], lambda t: t.replace("B-B : f 2.0", "B-B : as.constant ${Tabulation:cutoff} >=2.0 as.zero")),
+  # a value whose place-holder names an item that only a later option of the same command line creates (an INI file has no line order)
+  (["--override-item", "Pair:B-B=as.constant ${newvar}", "--add-item", "Variables:newvar=2.5"],
+   lambda t: "[Variables]\nnewvar : 2.5\n\n" + t.replace("B-B : f 2.0", "B-B : as.constant ${newvar}")),
+  (["--add-item", "Pair:C-C=as.constant ${Extra:value}", "--add-item", "Extra:value=0.75"],
+   lambda t: t.replace("B-B : f 2.0", "B-B : f 2.0\nC-C : as.constant ${Extra:value}") + "\n[Extra]\nvalue : 0.75\n"),
   (["--override-item", "Pair:Z-Z=as.zero"], None),      # must be refused
   (["--add-item", "Pair:A - B=as.zero"], None),          # must be refused
   (["--remove-item", "Pair:Z-Z"], None),                 # must be refused
